@@ -16,8 +16,18 @@ namespace Frappy.Comm
 @[simp] theorem release_depth (s : State) : s.release.depth = s.depth - 1 := rfl
 @[simp] theorem failTo_held (k : Caller) : (failTo k).held = k.held := rfl
 @[simp] theorem nextReq_held (k : Caller) : (nextReq k).held = k.held := by unfold nextReq; split <;> rfl
-@[simp] theorem afterConnected_held (k : Caller) : (afterConnected k).held = k.held := rfl
+@[simp] theorem afterConnected_held (s : State) (k : Caller) : (afterConnected s k).held = k.held := by
+  unfold afterConnected; split <;> split <;> (try split) <;> simp
 @[simp] theorem toFlush_held (s : State) (k : Caller) : (toFlush s k).held = k.held := by unfold toFlush; split <;> simp
+@[simp] theorem rcFail_held (k : Caller) : (rcFail k).held = k.held := by unfold rcFail; split <;> simp
+@[simp] theorem afterIdent_held (s : State) (k : Caller) : (afterIdent s k).held = k.held := by
+  unfold afterIdent; split <;> (try split) <;> simp
+@[simp] theorem startIdent_held (s : State) (k : Caller) : (startIdent s k).held = k.held := by
+  unfold startIdent; split <;> simp
+@[simp] theorem idNext_held (cfg : Cfg) (k : Caller) : (idNext cfg k).held = k.held := by
+  unfold idNext; split <;> (try split) <;> (try split) <;> simp
+@[simp] theorem toIdFlush_held (s : State) (k : Caller) : (toIdFlush s k).held = k.held := by unfold toIdFlush; split <;> simp
+@[simp] theorem toIdEndFail_held (k : Caller) : (toIdEndFail k).held = k.held := rfl
 
 inductive LockShape (s s' : State) (c : Nat) (e : Ev) : Prop
   | acq : (∃ x, e = .acq x) → s.freeFor c = true → s'.owner = some c → s'.depth = s.depth + 1 →
@@ -31,7 +41,7 @@ set_option hygiene false in
 /-- enumerate the accepted arms of `stepCaller s t c e = some s'` (hypothesis `h`), leaving `s'` substituted -/
 macro "step_arms" : tactic => `(tactic| (
   cases hpc : (s.callers c).pc <;> cases e <;> simp only [stepCaller, hpc] at h <;> try (simp at h)
-  all_goals (try (simp only [doAcqI, staleUpdate] at h))
+  all_goals (try (simp only [doAcqI, staleUpdate, doAcqId, connGone] at h))
   all_goals (repeat' (split at h))
   all_goals (try (simp at h; done))
   all_goals (try (simp only [Option.some.injEq] at h))
@@ -60,7 +70,10 @@ def heldOk (k : Caller) : Prop :=
   | .acqO => k.held = 0 ∧ k.kind = .multi
   | .fail => 0 < k.held
   | .check | .chkNow | .rcheck | .connecting | .visT | .cbs _ | .acqI | .slpD | .wakeD | .relO => k.held = base k.kind
-  | .slpWB | .wakeWB | .flush | .drain | .read | .closing | .visF | .relI => k.held = base k.kind + 1
+  | .slpWB | .wakeWB | .flush | .drain | .read | .closing | .visF | .relI | .readX => k.held = base k.kind + 1
+  | .idChk | .idChkNow | .idAcq | .idEnd _ => k.held = base k.kind
+  | .idSlp | .idWake | .idFlush | .idDrain | .idRead | .idRel | .idFail => k.held = base k.kind + 1
+  | .idClosing b | .idVisF b => k.held = base k.kind + b.toNat
 
 theorem heldOk_failTo (k : Caller) : heldOk (failTo k) := by
   unfold failTo heldOk
@@ -72,9 +85,50 @@ theorem heldOk_nextReq (k : Caller) (h : k.held = base k.kind) : heldOk (nextReq
   · by_cases hm : k.kind = .multi <;> simp [heldOk, hm, h, base]
   · simp [heldOk, h]
 
-theorem heldOk_afterConnected (k : Caller) (h : k.held = base k.kind) : heldOk (afterConnected k) := by
+theorem heldOk_rcFail (k : Caller) (h : k.held = base k.kind) : heldOk (rcFail k) := by
+  unfold rcFail
+  split
+  · exact heldOk_failTo k
+  · simp [heldOk, h]
+
+theorem heldOk_afterConnected (s : State) (k : Caller) (h : k.held = base k.kind) : heldOk (afterConnected s k) := by
   unfold afterConnected
-  by_cases hm : k.kind = .poll <;> simp [heldOk, hm, h, base]
+  split
+  · split
+    · by_cases hm : k.kind = .poll <;> simp [heldOk, hm, h, base]
+    · simp [heldOk, h]
+  · split
+    · split
+      · next hm => simp [heldOk, hm, h, base]
+      · exact heldOk_failTo k
+    · simp [heldOk, h]
+
+theorem heldOk_afterIdent (s : State) (k : Caller) (h : k.held = base k.kind) : heldOk (afterIdent s k) := by
+  unfold afterIdent
+  split
+  · split
+    · exact heldOk_afterConnected s k h
+    · simp [heldOk, h]
+  · exact heldOk_afterConnected s k h
+
+theorem heldOk_startIdent (s : State) (k : Caller) (h : k.held = base k.kind) : heldOk (startIdent s k) := by
+  unfold startIdent
+  split
+  · exact heldOk_afterIdent s k h
+  · simp [heldOk, h]
+
+theorem heldOk_idNext (cfg : Cfg) (k : Caller) (h : k.held = base k.kind) : heldOk (idNext cfg k) := by
+  unfold idNext
+  split
+  · split <;> simp [heldOk, h]
+  · split <;> simp [heldOk, h]
+
+theorem heldOk_toIdFlush (s : State) (k : Caller) (h : k.held = base k.kind + 1) : heldOk (toIdFlush s k) := by
+  unfold toIdFlush
+  split <;> simp [heldOk, h]
+
+theorem heldOk_toIdEndFail (k : Caller) (h : k.held = base k.kind) : heldOk (toIdEndFail k) := by
+  simp [toIdEndFail, heldOk, h]
 
 theorem heldOk_toFlush (s : State) (k : Caller) (h : k.held = base k.kind + 1) : heldOk (toFlush s k) := by
   unfold toFlush
@@ -93,6 +147,13 @@ theorem step_heldOk (s s' : State) (t c : Nat) (e : Ev) (h : stepCaller s t c e 
     | (apply heldOk_nextReq; simp_all [base]; done)
     | (apply heldOk_afterConnected; simp_all [base]; done)
     | (apply heldOk_toFlush; simp_all [base]; done)
+    | (apply heldOk_rcFail; simp_all [base]; done)
+    | (apply heldOk_afterIdent; simp_all [base]; done)
+    | (apply heldOk_startIdent; simp_all [base]; done)
+    | (apply heldOk_idNext; simp_all [base]; done)
+    | (apply heldOk_toIdFlush; simp_all [base]; done)
+    | (apply heldOk_toIdEndFail; simp_all [base]; done)
+    | (apply heldOk_failTo; done)
     | (simp_all [heldOk, base]; done)
     | (simp only [heldOk]; simp only [base] at hk; split at hk <;> omega))
 
@@ -102,8 +163,28 @@ def todoOk (k : Caller) : Prop := k.kind ≠ .multi → k.todo.length ≤ 1
 @[simp] theorem failTo_todo (k : Caller) : (failTo k).todo = k.todo := rfl
 @[simp] theorem nextReq_kind (k : Caller) : (nextReq k).kind = k.kind := by unfold nextReq; split <;> rfl
 @[simp] theorem nextReq_todo (k : Caller) : (nextReq k).todo = k.todo := by unfold nextReq; split <;> rfl
-@[simp] theorem afterConnected_kind (k : Caller) : (afterConnected k).kind = k.kind := rfl
-@[simp] theorem afterConnected_todo (k : Caller) : (afterConnected k).todo = k.todo := rfl
+@[simp] theorem afterConnected_kind (s : State) (k : Caller) : (afterConnected s k).kind = k.kind := by
+  unfold afterConnected; split <;> split <;> (try split) <;> simp
+@[simp] theorem afterConnected_todo (s : State) (k : Caller) : (afterConnected s k).todo = k.todo := by
+  unfold afterConnected; split <;> split <;> (try split) <;> simp
+@[simp] theorem rcFail_kind (k : Caller) : (rcFail k).kind = k.kind := by unfold rcFail; split <;> simp
+@[simp] theorem rcFail_todo (k : Caller) : (rcFail k).todo = k.todo := by unfold rcFail; split <;> simp
+@[simp] theorem afterIdent_kind (s : State) (k : Caller) : (afterIdent s k).kind = k.kind := by
+  unfold afterIdent; split <;> (try split) <;> simp
+@[simp] theorem afterIdent_todo (s : State) (k : Caller) : (afterIdent s k).todo = k.todo := by
+  unfold afterIdent; split <;> (try split) <;> simp
+@[simp] theorem startIdent_kind (s : State) (k : Caller) : (startIdent s k).kind = k.kind := by
+  unfold startIdent; split <;> simp
+@[simp] theorem startIdent_todo (s : State) (k : Caller) : (startIdent s k).todo = k.todo := by
+  unfold startIdent; split <;> simp
+@[simp] theorem idNext_kind (cfg : Cfg) (k : Caller) : (idNext cfg k).kind = k.kind := by
+  unfold idNext; split <;> (try split) <;> (try split) <;> simp
+@[simp] theorem idNext_todo (cfg : Cfg) (k : Caller) : (idNext cfg k).todo = k.todo := by
+  unfold idNext; split <;> (try split) <;> (try split) <;> simp
+@[simp] theorem toIdFlush_kind (s : State) (k : Caller) : (toIdFlush s k).kind = k.kind := by unfold toIdFlush; split <;> simp
+@[simp] theorem toIdFlush_todo (s : State) (k : Caller) : (toIdFlush s k).todo = k.todo := by unfold toIdFlush; split <;> simp
+@[simp] theorem toIdEndFail_kind (k : Caller) : (toIdEndFail k).kind = k.kind := rfl
+@[simp] theorem toIdEndFail_todo (k : Caller) : (toIdEndFail k).todo = k.todo := rfl
 @[simp] theorem toFlush_kind (s : State) (k : Caller) : (toFlush s k).kind = k.kind := by unfold toFlush; split <;> simp
 @[simp] theorem toFlush_todo (s : State) (k : Caller) : (toFlush s k).todo = k.todo := by unfold toFlush; split <;> simp
 
@@ -121,23 +202,152 @@ theorem step_todoOk (s s' : State) (t c : Nat) (e : Ev) (h : stepCaller s t c e 
     | (intro hm; simp at hm ⊢; omega)
     | skip)
 
-set_option maxHeartbeats 4000000 in
-/-- a release that gives the lock up completely is the last thing a call does before returning -/
+/-- the states of a call before its (first) send, the identification made on a reconnect included -/
+def prePc (p : Pc) : Bool :=
+  match p with
+  | .check | .chkNow | .rcheck | .connecting | .visT | .cbs _ | .acqI | .slpWB | .wakeWB | .flush | .drain
+  | .idChk | .idChkNow | .idAcq | .idSlp | .idWake | .idFlush | .idDrain | .idRead | .idRel | .idClosing _ | .idVisF _
+  | .idFail | .idEnd _ => true
+  | _ => false
+
+/-- states only a multicomm passes through -/
+def multiPc (p : Pc) : Bool :=
+  match p with
+  | .acqO | .slpD | .wakeD | .relO => true
+  | _ => false
+
+/-- a communicate / writeline / doPoll call sends at most once, and only after these states -/
+def sentOk (k : Caller) : Prop := k.kind ≠ .multi → multiPc k.pc = false ∧ (prePc k.pc = true → k.sent = 0)
+
+@[simp] theorem failTo_sent (k : Caller) : (failTo k).sent = k.sent := rfl
+@[simp] theorem nextReq_sent (k : Caller) : (nextReq k).sent = k.sent := by unfold nextReq; split <;> rfl
+@[simp] theorem afterConnected_sent (s : State) (k : Caller) : (afterConnected s k).sent = k.sent := by
+  unfold afterConnected; split <;> split <;> (try split) <;> simp
+@[simp] theorem toFlush_sent (s : State) (k : Caller) : (toFlush s k).sent = k.sent := by unfold toFlush; split <;> simp
+@[simp] theorem rcFail_sent (k : Caller) : (rcFail k).sent = k.sent := by unfold rcFail; split <;> simp
+@[simp] theorem afterIdent_sent (s : State) (k : Caller) : (afterIdent s k).sent = k.sent := by
+  unfold afterIdent; split <;> (try split) <;> simp
+@[simp] theorem startIdent_sent (s : State) (k : Caller) : (startIdent s k).sent = k.sent := by
+  unfold startIdent; split <;> simp
+@[simp] theorem idNext_sent (cfg : Cfg) (k : Caller) : (idNext cfg k).sent = k.sent := by
+  unfold idNext; split <;> (try split) <;> (try split) <;> simp
+@[simp] theorem toIdFlush_sent (s : State) (k : Caller) : (toIdFlush s k).sent = k.sent := by unfold toIdFlush; split <;> simp
+@[simp] theorem toIdEndFail_sent (k : Caller) : (toIdEndFail k).sent = k.sent := rfl
+
+theorem failTo_prePc (k : Caller) : prePc (failTo k).pc = false ∧ multiPc (failTo k).pc = false := by
+  unfold failTo; simp only; split <;> exact ⟨rfl, rfl⟩
+
+theorem nextReq_prePc (k : Caller) (hm : k.kind ≠ .multi) (h : k.todo = []) :
+    prePc (nextReq k).pc = false ∧ multiPc (nextReq k).pc = false := by
+  unfold nextReq; rw [h]; simp [hm, prePc, multiPc]
+
+theorem nextReq_multiPc (k : Caller) (hm : k.kind ≠ .multi) : multiPc (nextReq k).pc = false := by
+  unfold nextReq; split <;> simp [hm, multiPc]
+
+theorem afterConnected_multiPc (s : State) (k : Caller) : multiPc (afterConnected s k).pc = false := by
+  unfold afterConnected; split <;> split <;> (try split) <;> (try simp [multiPc]) <;> exact (failTo_prePc k).2
+
+theorem rcFail_multiPc (k : Caller) : multiPc (rcFail k).pc = false := by
+  unfold rcFail; split <;> (try simp [multiPc]) <;> exact (failTo_prePc k).2
+
+theorem afterIdent_multiPc (s : State) (k : Caller) : multiPc (afterIdent s k).pc = false := by
+  unfold afterIdent; split <;> (try split) <;> (try simp [multiPc]) <;> exact afterConnected_multiPc s k
+
+theorem startIdent_multiPc (s : State) (k : Caller) : multiPc (startIdent s k).pc = false := by
+  unfold startIdent; split <;> (try simp [multiPc]) <;> exact afterIdent_multiPc s k
+
+theorem idNext_multiPc (cfg : Cfg) (k : Caller) : multiPc (idNext cfg k).pc = false := by
+  unfold idNext; split <;> (try split) <;> (try split) <;> simp [multiPc]
+
+theorem toFlush_multiPc (s : State) (k : Caller) : multiPc (toFlush s k).pc = false := by
+  unfold toFlush; split <;> (try simp [multiPc]) <;> exact (failTo_prePc k).2
+
+theorem toIdFlush_multiPc (s : State) (k : Caller) : multiPc (toIdFlush s k).pc = false := by
+  unfold toIdFlush; split <;> simp [multiPc]
+
+theorem todo_tail_nil {k : Caller} (ht : todoOk k) (hm : k.kind ≠ .multi) : k.todo.drop 1 = [] := by
+  have hl := ht hm
+  cases hh : k.todo with
+  | nil => rfl
+  | cons a b => simp [hh] at hl; simp [hl]
+
+theorem relI_next_sentOk (k : Caller) (ht : todoOk k) (hm : k.kind ≠ .multi) (k' : Caller) (hk : k'.kind = k.kind)
+    (htd : k'.todo = k.todo.tail) :
+    multiPc (nextReq k').pc = false ∧ (prePc (nextReq k').pc = true → (nextReq k').sent = 0) := by
+  have h0 : k'.todo = [] := by
+    rw [htd]
+    have := todo_tail_nil ht hm
+    cases hh : k.todo with
+    | nil => rfl
+    | cons a b => rw [hh] at this; simpa using this
+  obtain ⟨h1, h2⟩ := nextReq_prePc k' (by rw [hk]; exact hm) h0
+  exact ⟨h2, fun hp => by rw [h1] at hp; simp at hp⟩
+
+set_option maxHeartbeats 8000000 in
+theorem step_sentOk (s s' : State) (t c : Nat) (e : Ev) (h : stepCaller s t c e = some s')
+    (hk : sentOk (s.callers c)) (ht : todoOk (s.callers c)) : sentOk (s'.callers c) := by
+  step_arms
+  all_goals (simp only [sentOk, hpc] at hk)
+  all_goals (simp only [sentOk, setC_same])
+  all_goals (intro hm)
+  all_goals (first
+    | (exact absurd rfl hm)
+    | (exact absurd (‹_ ∧ _›).1 hm)
+    | (simp at hm; exact relI_next_sentOk (s.callers c) ht hm _ rfl rfl)
+    | (exact hk hm)
+    | (rw [hpc]; exact hk hm)
+    | (simp at hm; done)
+    | (simp at hm; have hk' := hk hm; simp [multiPc, prePc] at hk'; done)
+    | (refine ⟨?_, fun hp => ?_⟩
+       · first
+         | (simp [multiPc]; done)
+         | exact (failTo_prePc _).2
+         | exact nextReq_multiPc _ hm
+         | exact afterConnected_multiPc _ _
+         | exact rcFail_multiPc _
+         | exact afterIdent_multiPc _ _
+         | exact startIdent_multiPc _ _
+         | exact idNext_multiPc _ _
+         | exact toFlush_multiPc _ _
+         | exact toIdFlush_multiPc _ _
+         | (split <;> first | (simp [multiPc]; done) | exact (failTo_prePc _).2 | exact toFlush_multiPc _ _ | exact toIdFlush_multiPc _ _ | exact afterConnected_multiPc _ _)
+       · first
+         | rfl
+         | (simp at hm; have hk' := (hk hm).2; simp [prePc] at hk'; simpa using hk')
+         | (exfalso; simp [(failTo_prePc _).1] at hp; done)
+         | (exfalso; simp [prePc] at hp; done)
+         | (exfalso; simp at hm; have h1 := (nextReq_prePc _ hm (todo_tail_nil ht hm)).1; simp at h1; simp [h1] at hp; done)
+         | (simp_all [prePc]; done))
+    | skip)
+
+set_option maxHeartbeats 8000000 in
+/-- a release that gives the lock up completely is the last thing a call does before returning — once it has sent -/
 theorem step_rel_done (s s' : State) (t c : Nat) (e : Ev) (h : stepCaller s t c e = some s')
-    (hk : heldOk (s.callers c)) (ht : todoOk (s.callers c)) (he : ∃ x, e = .rel x)
+    (hk : heldOk (s.callers c)) (ht : todoOk (s.callers c)) (hso : sentOk (s.callers c)) (hsent : 0 < (s.callers c).sent)
+    (he : ∃ x, e = .rel x)
     (h0 : (s'.callers c).held = 0) : (s'.callers c).pc = .done := by
   obtain ⟨x, rfl⟩ := he
   cases hpc : (s.callers c).pc <;> simp only [stepCaller, hpc] at h <;> try (simp at h)
+  all_goals (try (simp only [connGone] at h))
   all_goals (repeat' (split at h))
   all_goals (try (simp at h; done))
   all_goals (try (simp only [Option.some.injEq] at h))
   all_goals (try (obtain ⟨hg, h⟩ := h))
   all_goals (try subst h)
   all_goals (simp only [heldOk, hpc] at hk)
+  all_goals (simp only [sentOk, hpc] at hso)
   all_goals (simp only [setC_same] at h0 ⊢)
   all_goals (first
     | (simp [failTo] at h0 ⊢; simp [h0]; done)
     | rfl
+    | (exfalso; subst_vars
+       by_cases hm : (s.callers c).kind = .multi
+       · simp [base, hm] at hk; simp [hk] at h0
+       · have h1 := (hso hm).2; simp [prePc] at h1; omega)
+    | (by_cases hm : (s.callers c).kind = .multi
+       · simp [base, hm] at hk; simp [hk] at h0; done
+       · exfalso; have h1 := (hso hm).2; simp [prePc] at h1; omega)
+    | (exfalso; subst_vars; simp_all [base]; done)
     | (by_cases hm : (s.callers c).kind = .multi
        · simp [base, hm] at hk; simp [hk] at h0
        · have hl := ht hm
@@ -159,6 +369,139 @@ theorem step_from_done (s s' : State) (t c : Nat) (e : Ev) (h : stepCaller s t c
     · simp at h
   · left; exact ⟨_, _, rfl⟩
 
+set_option maxHeartbeats 8000000 in
+/-- the ghost count of sends only grows within a call -/
+theorem step_sent_mono (s s' : State) (t c : Nat) (e : Ev) (h : stepCaller s t c e = some s')
+    (hc : ∀ x kd rq, e ≠ .call x kd rq) : (s.callers c).sent ≤ (s'.callers c).sent := by
+  step_arms
+  all_goals (first
+    | (exfalso; exact hc _ _ _ rfl)
+    | (simp; done)
+    | (simp only [setC_same]; split <;> simp; done)
+    | skip)
+
+theorem step_send_sent (s s' : State) (t c x conn n : Nat) (d : Bytes)
+    (h : stepCaller s t c (.send x conn n d) = some s') : 0 < (s'.callers c).sent := by
+  cases hpc : (s.callers c).pc <;> simp only [stepCaller, hpc] at h <;> try (simp at h)
+  obtain ⟨_, h⟩ := h
+  split at h
+  · split at h <;> (simp only [Option.some.injEq] at h; subst h; simp)
+  · simp only [Option.some.injEq] at h; subst h; simp
+
+/-! ### communicators without identification: the states of checkHWIdent are never entered -/
+
+def identPc (p : Pc) : Bool :=
+  match p with
+  | .idChk | .idChkNow | .idAcq | .idSlp | .idWake | .idFlush | .idDrain | .idRead | .idRel | .idClosing _ | .idVisF _
+  | .idFail | .idEnd _ => true
+  | _ => false
+
+def identFree (k : Caller) : Prop := identPc k.pc = false ∧ k.idSaved = []
+
+theorem rcFail_ni {k : Caller} (h : k.idSaved = []) : rcFail k = failTo k := by unfold rcFail; rw [h]
+
+theorem afterConnected_ni (s : State) {k : Caller} (h : k.idSaved = []) :
+    afterConnected s k = if s.isConn then { k with pc := if k.kind = .poll then .done else .acqI, viaRead := true }
+      else (if k.kind = .poll then { k with pc := .done } else failTo k) := by
+  unfold afterConnected; rw [h]
+
+theorem startIdent_ni (s : State) (k : Caller) (h : s.cfg.ident = []) : startIdent s k = afterIdent s k := by
+  unfold startIdent; rw [h]
+
+theorem startIdent_ni' (s : State) (k : Caller) (h : s.cfg.ident = []) :
+    startIdent { s with isConn := true } k = afterIdent { s with isConn := true } k := startIdent_ni _ k h
+
+theorem identFree_failTo {k : Caller} (h : identFree k) : identFree (failTo k) := by
+  unfold failTo; refine ⟨?_, h.2⟩; simp only; split <;> rfl
+
+theorem identFree_nextReq {k : Caller} (h : identFree k) : identFree (nextReq k) := by
+  unfold nextReq; split <;> (try split) <;> exact ⟨rfl, h.2⟩
+
+theorem identFree_toFlush (s : State) {k : Caller} (h : identFree k) : identFree (toFlush s k) := by
+  unfold toFlush; split
+  · exact identFree_failTo h
+  · exact ⟨rfl, h.2⟩
+
+theorem identFree_afterConnected (s : State) {k : Caller} (h : identFree k) : identFree (afterConnected s k) := by
+  rw [afterConnected_ni s h.2]
+  split
+  · refine ⟨?_, h.2⟩; simp only; split <;> rfl
+  · split
+    · exact ⟨rfl, h.2⟩
+    · exact identFree_failTo h
+
+theorem identFree_afterIdent (s : State) {k : Caller} (h : identFree k) : identFree (afterIdent s k) := by
+  unfold afterIdent
+  split
+  · split
+    · exact identFree_afterConnected s h
+    · exact ⟨rfl, h.2⟩
+  · exact identFree_afterConnected s h
+
+set_option maxHeartbeats 8000000 in
+theorem step_identFree (s s' : State) (t c : Nat) (e : Ev) (h : stepCaller s t c e = some s')
+    (hid : s.cfg.ident = []) (hf : identFree (s.callers c)) : identFree (s'.callers c) := by
+  step_arms
+  all_goals (try (exfalso; simp [identFree, identPc, hpc] at hf; done))
+  all_goals (try (exfalso; simp [hid] at hg; done))
+  all_goals (simp only [setC_same])
+  all_goals (first
+    | exact hf
+    | exact ⟨rfl, rfl⟩
+    | exact ⟨rfl, hf.2⟩
+    | exact ⟨hf.1, hf.2⟩
+    | exact identFree_failTo hf
+    | (apply identFree_failTo; first | exact ⟨rfl, hf.2⟩ | exact ⟨hf.1, hf.2⟩)
+    | (apply identFree_nextReq; first | exact ⟨rfl, hf.2⟩ | exact ⟨hf.1, hf.2⟩)
+    | (apply identFree_toFlush; first | exact ⟨rfl, hf.2⟩ | exact ⟨hf.1, hf.2⟩)
+    | (apply identFree_afterConnected; first | exact ⟨rfl, hf.2⟩ | exact ⟨hf.1, hf.2⟩)
+    | (rw [startIdent_ni _ _ hid]; apply identFree_afterIdent; first | exact ⟨rfl, hf.2⟩ | exact ⟨hf.1, hf.2⟩)
+    | (rw [startIdent_ni _ _ (by exact hid)]; exact identFree_afterIdent _ hf)
+    | (rw [rcFail_ni hf.2]; exact identFree_failTo hf)
+    | (split <;> first
+        | exact ⟨rfl, hf.2⟩
+        | exact ⟨hf.1, hf.2⟩
+        | (apply identFree_failTo; first | exact ⟨rfl, hf.2⟩ | exact ⟨hf.1, hf.2⟩)
+        | (apply identFree_toFlush; first | exact ⟨rfl, hf.2⟩ | exact ⟨hf.1, hf.2⟩)
+        | (apply identFree_afterConnected; first | exact ⟨rfl, hf.2⟩ | exact ⟨hf.1, hf.2⟩)
+        | (apply identFree_nextReq; first | exact ⟨rfl, hf.2⟩ | exact ⟨hf.1, hf.2⟩))
+    | skip)
+
+set_option hygiene false in
+/-- `step_arms` for communicators without identification (hypotheses `hid : s.cfg.ident = []` and
+`hf : identFree (s.callers c)` in the context): the arms of checkHWIdent and of a connection dropped by another thread
+are closed, `startIdent` / `rcFail` are reduced -/
+macro "step_arms_ni" : tactic => `(tactic| (
+  step_arms
+  all_goals (try (exfalso; simp [identFree, identPc, hpc] at hf; done))
+  all_goals (try (exfalso; simp [hid] at hg; done))
+  all_goals (try (rw [startIdent_ni' _ _ hid] at hp))
+  all_goals (try (rw [startIdent_ni' _ _ hid]))
+  all_goals (try (rw [rcFail_ni hf.2] at hp))
+  all_goals (try (rw [rcFail_ni hf.2]))))
+
+theorem afterConnected_pc_cases (s : State) (k : Caller) (h : k.idSaved = []) :
+    (afterConnected s k).pc = .done ∨ (afterConnected s k).pc = .acqI ∨ (afterConnected s k).pc = .fail := by
+  rw [afterConnected_ni s h]
+  split
+  · by_cases hp : k.kind = .poll <;> simp [hp]
+  · split
+    · simp
+    · unfold failTo; simp only; split <;> simp
+
+theorem afterIdent_pc_cases (s : State) (k : Caller) (h : k.idSaved = []) :
+    (afterIdent s k).pc = .done ∨ (afterIdent s k).pc = .acqI ∨ (afterIdent s k).pc = .fail ∨ ∃ l, (afterIdent s k).pc = .cbs l := by
+  unfold afterIdent
+  split
+  · split
+    · rcases afterConnected_pc_cases s k h with h' | h' | h' <;> simp [h']
+    · exact Or.inr (Or.inr (Or.inr ⟨_, rfl⟩))
+  · rcases afterConnected_pc_cases s k h with h' | h' | h' <;> simp [h']
+
+theorem step_cfg (s s' : State) (t c : Nat) (e : Ev) (h : stepCaller s t c e = some s') : s'.cfg = s.cfg := by
+  step_arms
+  all_goals (first | rfl | (simp [State.setC, State.acquire, State.release]; done) | (split <;> simp [State.setC, State.acquire, State.release]; done) | skip)
+
 theorem step_call_idle (s s' : State) (t c x : Nat) (kd : Kind) (rq : List Req)
     (h : stepCaller s t c (.call x kd rq) = some s') : (s.callers c).pc = .idle := by
   cases hpc : (s.callers c).pc <;> simp only [stepCaller, hpc] at h <;> first | rfl | (simp at h)
@@ -174,12 +517,16 @@ theorem stale_send_pc (s s' : State) (t c conn n : Nat) (d : Bytes)
 theorem failTo_pc (k : Caller) : (failTo k).pc ≠ .read ∧ (failTo k).pc ≠ .relI := by
   unfold failTo; split <;> simp
 
-def bufPc (p : Pc) : Bool := match p with | .drain | .read | .closing => true | _ => false
+def bufPc (p : Pc) : Bool :=
+  match p with
+  | .drain | .read | .closing | .relI | .readX | .idDrain | .idRead | .idRel => true
+  | .idClosing b => b
+  | _ => false
 
 set_option maxHeartbeats 4000000 in
 /-- only a caller inside the transaction (or a successful connect) touches connection, buffer and channel -/
 theorem step_buf_keep (s s' : State) (t c : Nat) (e : Ev) (h : stepCaller s t c e = some s')
-    (hp : bufPc (s.callers c).pc = false) (hc : ∀ x od, e ≠ .connect x true od) :
+    (hp : bufPc (s.callers c).pc = false) (hc : ∀ x od, e ≠ .connect x true od) (hh : ∀ x, e ≠ .hclose x) :
     s'.conn = s.conn ∧ s'.rxbuf = s.rxbuf ∧ s'.chan = s.chan ∧ s'.eof = s.eof := by
   step_arms
   all_goals (first
@@ -187,6 +534,7 @@ theorem step_buf_keep (s s' : State) (t c : Nat) (e : Ev) (h : stepCaller s t c 
     | (simp [State.setC, State.acquire, State.release]; done)
     | (exfalso; exact hc _ _ rfl)
     | (exfalso; subst_vars; exact hc _ _ rfl)
+    | (exfalso; exact hh _ rfl)
     | (split <;> simp [State.setC, State.acquire, State.release]; done)
     | skip)
 
@@ -202,6 +550,7 @@ theorem step_read (s s' : State) (t c : Nat) (e : Ev) (h : stepCaller s t c e = 
           (s'.callers c).replies = (s.callers c).replies ++ [l])
     ∨ ((s'.callers c).pc ≠ .read ∧ (s'.callers c).pc ≠ .relI) ) := by
   cases e <;> simp only [stepCaller, hp] at h <;> try (simp at h)
+  all_goals (try (simp only [connGone] at h))
   all_goals (repeat' (split at h))
   all_goals (try (simp at h; done))
   all_goals (try (simp only [Option.some.injEq] at h))
@@ -216,7 +565,19 @@ theorem step_read (s s' : State) (t c : Nat) (e : Ev) (h : stepCaller s t c e = 
     | skip)
 
 theorem nextReq_pc (k : Caller) : (nextReq k).pc ≠ .read := by unfold nextReq; split <;> (try split) <;> simp
-theorem afterConnected_pc (k : Caller) : (afterConnected k).pc ≠ .read := by unfold afterConnected; simp; split <;> simp
+theorem afterConnected_pc (s : State) (k : Caller) : (afterConnected s k).pc ≠ .read ∧ (afterConnected s k).pc ≠ .relI := by
+  unfold afterConnected; split <;> split <;> (try split) <;> (try (simp; done)) <;> exact failTo_pc k
+theorem rcFail_pc (k : Caller) : (rcFail k).pc ≠ .read ∧ (rcFail k).pc ≠ .relI := by
+  unfold rcFail; split <;> (try (simp; done)) <;> exact failTo_pc k
+theorem afterIdent_pc (s : State) (k : Caller) : (afterIdent s k).pc ≠ .read ∧ (afterIdent s k).pc ≠ .relI := by
+  unfold afterIdent; split <;> (try split) <;> (try (simp; done)) <;> exact afterConnected_pc s k
+theorem startIdent_pc (s : State) (k : Caller) : (startIdent s k).pc ≠ .read ∧ (startIdent s k).pc ≠ .relI := by
+  unfold startIdent; split <;> (try (simp; done)) <;> exact afterIdent_pc s k
+theorem idNext_pc (cfg : Cfg) (k : Caller) : (idNext cfg k).pc ≠ .read ∧ (idNext cfg k).pc ≠ .relI := by
+  unfold idNext; split <;> (try split) <;> (try split) <;> simp
+theorem toIdFlush_pc (s : State) (k : Caller) : (toIdFlush s k).pc ≠ .read ∧ (toIdFlush s k).pc ≠ .relI := by
+  unfold toIdFlush; split <;> simp
+theorem toIdEndFail_pc (k : Caller) : (toIdEndFail k).pc ≠ .read ∧ (toIdEndFail k).pc ≠ .relI := by simp [toIdEndFail]
 theorem toFlush_pc (s : State) (k : Caller) : (toFlush s k).pc ≠ .read := by
   unfold toFlush; split
   · exact (failTo_pc k).1
@@ -235,9 +596,56 @@ theorem step_enter_read (s s' : State) (t c : Nat) (e : Ev) (h : stepCaller s t 
         | (simp at hp; done)
         | (exact (failTo_pc _).1 hp)
         | (exact nextReq_pc _ hp)
-        | (exact afterConnected_pc _ hp)
+        | (exact (afterConnected_pc _ _).1 hp)
         | (exact toFlush_pc _ _ hp)
-        | (split at hp <;> first | (simp at hp; done) | (exact (failTo_pc _).1 hp) | (exact nextReq_pc _ hp) | (exact afterConnected_pc _ hp) | (exact toFlush_pc _ _ hp)))
+        | (exact (rcFail_pc _).1 hp)
+        | (exact (afterIdent_pc _ _).1 hp)
+        | (exact (startIdent_pc _ _).1 hp)
+        | (exact (idNext_pc _ _).1 hp)
+        | (exact (toIdFlush_pc _ _).1 hp)
+        | (exact (toIdEndFail_pc _).1 hp)
+        | (split at hp <;> first | (simp at hp; done) | (exact (failTo_pc _).1 hp) | (exact nextReq_pc _ hp) | (exact (afterConnected_pc _ _).1 hp) | (exact toFlush_pc _ _ hp) | (exact (toIdFlush_pc _ _).1 hp)))
+    | skip)
+
+theorem misc_pc_ne_readX (s : State) (cfg : Cfg) (k : Caller) :
+    (failTo k).pc ≠ .readX ∧ (nextReq k).pc ≠ .readX ∧ (afterConnected s k).pc ≠ .readX ∧ (toFlush s k).pc ≠ .readX ∧
+    (rcFail k).pc ≠ .readX ∧ (afterIdent s k).pc ≠ .readX ∧ (startIdent s k).pc ≠ .readX ∧ (idNext cfg k).pc ≠ .readX ∧
+    (toIdFlush s k).pc ≠ .readX ∧ (toIdEndFail k).pc ≠ .readX := by
+  have h1 : (failTo k).pc ≠ .readX := by unfold failTo; simp only; split <;> simp
+  have h3 : (afterConnected s k).pc ≠ .readX := by
+    unfold afterConnected; split <;> split <;> (try split) <;> (try (simp; done)) <;> exact h1
+  have h6 : (afterIdent s k).pc ≠ .readX := by unfold afterIdent; split <;> (try split) <;> (try (simp; done)) <;> exact h3
+  refine ⟨h1, ?_, h3, ?_, ?_, h6, ?_, ?_, ?_, ?_⟩
+  · unfold nextReq; split <;> (try split) <;> simp
+  · unfold toFlush; split <;> (try (simp; done)); exact h1
+  · unfold rcFail; split <;> (try (simp; done)); exact h1
+  · unfold startIdent; split <;> (try (simp; done)); exact h6
+  · unfold idNext; split <;> (try split) <;> (try split) <;> simp
+  · unfold toIdFlush; split <;> simp
+  · simp [toIdEndFail]
+
+set_option maxHeartbeats 8000000 in
+/-- the read loop of `getFullReply` is entered by a `more` event only -/
+theorem step_enter_readX (s s' : State) (t c : Nat) (e : Ev) (h : stepCaller s t c e = some s')
+    (hp : (s'.callers c).pc = .readX) : (s.callers c).pc = .readX ∨ ∃ x n, e = .more x n := by
+  step_arms
+  all_goals (first
+    | (left; first | exact hpc | rfl)
+    | (right; exact ⟨_, _, rfl⟩)
+    | (exfalso; simp only [setC_same] at hp; first
+        | (rw [hpc] at hp; simp at hp; done)
+        | (simp at hp; done)
+        | (exact (misc_pc_ne_readX s s.cfg _).1 hp)
+        | (exact (misc_pc_ne_readX s s.cfg _).2.1 hp)
+        | (exact (misc_pc_ne_readX _ s.cfg _).2.2.1 hp)
+        | (exact (misc_pc_ne_readX _ s.cfg _).2.2.2.1 hp)
+        | (exact (misc_pc_ne_readX s s.cfg _).2.2.2.2.1 hp)
+        | (exact (misc_pc_ne_readX _ s.cfg _).2.2.2.2.2.1 hp)
+        | (exact (misc_pc_ne_readX _ s.cfg _).2.2.2.2.2.2.1 hp)
+        | (exact (misc_pc_ne_readX s _ _).2.2.2.2.2.2.2.1 hp)
+        | (exact (misc_pc_ne_readX _ s.cfg _).2.2.2.2.2.2.2.2.1 hp)
+        | (exact (misc_pc_ne_readX s s.cfg _).2.2.2.2.2.2.2.2.2 hp)
+        | (split at hp <;> first | (simp at hp; done) | (exact (misc_pc_ne_readX s s.cfg _).1 hp) | (exact (misc_pc_ne_readX _ s.cfg _).2.2.2.1 hp) | (exact (misc_pc_ne_readX _ s.cfg _).2.2.1 hp) | (exact (misc_pc_ne_readX s s.cfg _).2.1 hp) | (exact (misc_pc_ne_readX _ s.cfg _).2.2.2.2.2.2.2.2.1 hp)))
     | skip)
 
 /-- a send: the channel has been drained, the receive buffer is emptied -/
